@@ -1031,7 +1031,8 @@ impl<'a, F: Family> Cx<'a, F> {
                             (Handle::Thin(x), Handle::Thin(y)) => Some((x == y, "arc")),
                             (Handle::Str(x), Handle::Str(y)) => Some((x == y, "arc")),
                             (Handle::OffP(x), Handle::OffP(y)) => Some(((x == y) && !(x != y), "value")),
-                            (Handle::UnionP(x), Handle::UnionQ(y)) | (Handle::UnionQ(y), Handle::UnionP(x)) => Some((x == y, "union-mixed")),
+                            // "never compare equal": neither `==` says equal nor `!=` says not-unequal, in either order
+                            (Handle::UnionP(x), Handle::UnionQ(y)) | (Handle::UnionQ(y), Handle::UnionP(x)) => Some(((x == y) || !(x != y) || (y == x) || !(y != x), "union-mixed")),
                             (Handle::UnionP(x), Handle::UnionP(y)) | (Handle::UnionQ(x), Handle::UnionQ(y)) => {
                                 let _ = x == y;
                                 Some((false, "unchecked"))
